@@ -720,6 +720,27 @@ type goPtrM struct{ X int }
 
 func (p *goPtrM) MarshalJSON() ([]byte, error) { return []byte(fmt.Sprintf(`"P%d"`, p.X)), nil }
 
+type goTags []string
+
+func (t goTags) MarshalJSON() ([]byte, error) { return json.Marshal(strings.Join(t, "+")) }
+
+type goSet map[string]bool
+
+func (s goSet) MarshalJSON() ([]byte, error) {
+	ks := []string{}
+	for k := range s {
+		ks = append(ks, k)
+	}
+	sort.Strings(ks)
+	return json.Marshal(ks)
+}
+
+type goDoc struct {
+	Raw  json.RawMessage
+	Tags goTags
+	Set  goSet
+}
+
 type goOuter struct {
 	In goPtrM
 	N  *big.Int
@@ -752,6 +773,9 @@ var goCases = []struct {
 	{"go-cycle-map", func(vm *otto.Otto) { m := map[string]interface{}{"v": 1}; m["self"] = m; vm.Set("m", m) }, `JSON.stringify(m)`, `throw:TypeError`},
 	{"go-cycle-slice", func(vm *otto.Otto) { s := make([]interface{}, 2); s[0] = 1; s[1] = s; vm.Set("s", s) }, `JSON.stringify(s)`, `throw:TypeError`},
 	{"go-shared-not-cyclic", func(vm *otto.Otto) { l := &goLeaf{3}; vm.Set("two", &goTwo{l, l}) }, `JSON.stringify(two)`, `{"A":{"V":3},"B":{"V":3}}`},
+	{"marshaler-raw-message-field", func(vm *otto.Otto) { vm.Set("doc", &goDoc{Raw: json.RawMessage(`{"x":1}`), Tags: goTags{"a", "b"}, Set: goSet{"k": true}}) }, `JSON.stringify(doc)`, `{"Raw":{"x":1},"Tags":"a+b","Set":["k"]}`},
+	{"marshaler-named-slice-member", func(vm *otto.Otto) { vm.Set("doc", &goDoc{Raw: json.RawMessage(`[1]`), Tags: goTags{"a", "b"}, Set: goSet{}}) }, `JSON.stringify({t: doc.Tags, r: doc.Raw})`, `{"t":"a+b","r":[1]}`},
+	{"marshaler-named-slice-root", func(vm *otto.Otto) { vm.Set("tags", goTags{"x", "y", "z"}) }, `JSON.stringify(tags)`, `"x+y+z"`},
 	{"go-marshal-values", func(vm *otto.Otto) {
 		vm.Set("goMarshal", func(call otto.FunctionCall) otto.Value {
 			b, err := json.Marshal(map[string]otto.Value{"x": call.Argument(0), "y": call.Argument(1)})
